@@ -171,6 +171,13 @@ def unit_Forwarding(repo):
     blocking = ('try_read' not in rel) and ('try_write' not in rel) and ('TryLockError' not in rel)
     L.append("/-- reload.rs never polls its lock (`try_read` / `try_write`): callbacks wait for a reload in progress -/")
     L.append("def reloadLocksBlocking : Bool := %s" % ('true' if blocking else 'false'))
+    # Vec<S>::downcast_raw: a Vec answers the per-subscriber-filter marker only if EVERY member does (a member that does not — a
+    # plain layer, an absent one — makes the whole Vec an unfiltered subscriber for the enclosing Layered)
+    vec_region = reg(sub, r'impl<C, S> Subscribe<C> for alloc::vec::Vec<S>', 'Vec')
+    vt = ' '.join(t[1] for t in rtok.tokenize(vec_region))
+    vec_all = ('if filter :: is_psf_downcast_marker ( id ) && self . iter ( ) . any ( | s | s . downcast_raw ( id ) . is_none ( ) ) { return None ; }' in vt)
+    L.append("/-- `Vec::downcast_raw`: the per-subscriber-filter marker is answered only if every member answers it -/")
+    L.append("def vecPsfNeedsEveryMember : Bool := %s" % ('true' if vec_all else 'false'))
     L.append("end TM.Gen.Forwarding")
     sources = ["%s sha256/16=%s" % (k, rtok.sha(v)) for k, v in sorted(srcs.items())]
     return "\n".join(L) + "\n", sources
